@@ -1701,7 +1701,7 @@ func (p *scionPacketProcessor) validateSrcHost() disposition {
 		return pForward
 	}
 	src, err := p.scionLayer.SrcAddr()
-	if err == nil && src.IP().Is4In6() {
+	if err == nil && src.Type() == addr.HostTypeIP && src.IP().Is4In6() {
 		err = ErrUnsupportedV4MappedV6Address
 	}
 	if err == nil {
